@@ -1,4 +1,4 @@
 SPECIFICATION Spec
 CONSTANTS Tier = "quick"
-INVARIANTS InvQ1 InvQ2 InvQ3 InvQ4 InvQ5 InvQ6 InvQ7 InvQ8 InvA1 InvP1 InvP2 InvP3 InvP4 InvR1 InvR2 InvR3 InvR4
+INVARIANTS InvQ1 InvQ2 InvQ3 InvQ4 InvQ5 InvQ6 InvQ7 InvQ8 InvQ9 InvA1 InvP1 InvP2 InvP3 InvP4 InvR1 InvR2 InvR3 InvR4 InvR5 InvF1 InvF2 InvPr1 InvPr2
 CHECK_DEADLOCK FALSE
